@@ -398,12 +398,15 @@ Fixpoint lexec (waits : lst -> bool) (fuel : nat) (k : kind) (s : lst) : lst :=
   | S f => match pick_step waits k s with Some s' => lexec waits f k s' | None => s end
   end.
 
+Definition loop_running (s : lst) : bool := match loop s with LRun => true | _ => false end.
+
 (** observation: how many calls returned; is the listening socket open; after a returned ServerClose,
-    have all workers of the pool terminated *)
-Definition lobs_gen (waits : lst -> bool) (k : kind) (h : list op) : nat * bool * option bool :=
+    have all workers of the pool terminated; is the serving thread still inside its loop *)
+Definition lobs_gen (waits : lst -> bool) (k : kind) (h : list op) : nat * bool * option bool * bool :=
   let s := lexec waits (S (lmeasure (linit h))) k (linit h) in
   (returned s, socket_open s,
-   if close_returned s then Some (Nat.eqb (idle s + in_flight s) 0 && negb (pool_running s)) else None).
+   if close_returned s then Some (Nat.eqb (idle s + in_flight s) 0 && negb (pool_running s)) else None,
+   loop_running s).
 Definition lobs := lobs_gen serving_flag.
 
 (* ================================================================================================ *)
@@ -412,11 +415,11 @@ Definition lobs := lobs_gen serving_flag.
 Definition option_eqb {A} (e : A -> A -> bool) (a b : option A) : bool :=
   match a, b with Some x, Some y => e x y | None, None => true | _, _ => false end.
 
-(** lifecycle: (kind, history, (calls returned, socket open, workers dead)) *)
-Definition c12_life_check (c : kind * list op * (nat * bool * option bool)) : bool :=
-  let '(k, h, (n, so, wd)) := c in
-  let '(n', so', wd') := lobs k h in
-  Nat.eqb n n' && Bool.eqb so so' && option_eqb Bool.eqb wd wd'.
+(** lifecycle: (kind, history, (calls returned, socket open, workers dead, serving thread still in its loop)) *)
+Definition c12_life_check (c : kind * list op * (nat * bool * option bool * bool)) : bool :=
+  let '(k, h, (n, so, wd, lr)) := c in
+  let '(n', so', wd', lr') := lobs k h in
+  Nat.eqb n n' && Bool.eqb so so' && option_eqb Bool.eqb wd wd' && Bool.eqb lr lr'.
 
 (** handler level: the dispatcher is the table of the single-threaded replies of the implementation
     (request text -> reply text or failure, tokens of the callables invoked) *)
